@@ -101,7 +101,8 @@ def rules(rep, m):
         paths["n"] += 1
         if succ:
             return
-        canc = [c for c in calls if c[1] in ("cmi_hashheap_cancel", "cmi_hashheap_remove") and c[2][0] == rg]
+        canc = [c for c in calls if c[1] in ("cmi_hashheap_cancel", "cmi_hashheap_remove") and
+                (c[2][0] == rg or common.same_object(m, c[2][0], rg))]
         r3.instance("abnormal exit path: %s" % " ; ".join(TR.fmt(tr, 8)))
         if not canc:
             rep.finding(r3, w.name, "leave:no-dequeue", "a waiter leaving for another reason stays in the waiting list",
